@@ -623,8 +623,18 @@ impl Client {
             .writer
             .lock()
             .map_err(|_| poisoned_lock_error("client writer"))?;
-        write_message(&mut *writer, msg)?;
-        writer.flush()?;
+        // A failed or timed-out write may already have put part of the frame
+        // on the wire (a write timeout interrupts `write_all` midway and leaves
+        // the socket writable). Nothing may follow a torn frame, so fail the
+        // connection instead of letting the next caller append to it.
+        if let Err(err) = write_message(&mut *writer, msg) {
+            let _ = writer.get_ref().shutdown(Shutdown::Both);
+            return Err(err);
+        }
+        if let Err(err) = writer.flush() {
+            let _ = writer.get_ref().shutdown(Shutdown::Both);
+            return Err(err.into());
+        }
         Ok(())
     }
 
